@@ -6,6 +6,7 @@ import Vuego.Driver.EntryOp
 import Vuego.Driver.LayoutOp
 import Vuego.Driver.CacheOp
 import Vuego.Driver.MergeOp
+import Vuego.Driver.FmtOp
 namespace Vuego.Driver
 open Lean
 
@@ -23,6 +24,7 @@ def handle (j : Json) : Json :=
   | "layout" => layoutOp j
   | "cache" => cacheOp j
   | "merge" => mergeOp j
+  | "fmt" => fmtOp j
   | _ => O [("error", Json.str "bad-op")]
 
 def handleLine (line : String) : String :=
